@@ -125,11 +125,17 @@ def _justified(ctx, esc, it):
     #    joins lines that end with LF and requires at least one line.
     if q == 'wpull.protocol.http.request:Response.parse' and it.kind == 'unpack' and "split(b'\\n', 1)" in text:
         rr = repo.func('wpull.protocol.http.stream:Stream.read_response')
-        src = ' ; '.join(norm_text(s) for s in walk_no_nested(rr.node) if isinstance(s, (ast.If, ast.Expr)))
-        ok = "if not data.endswith(b'\\n'): raise NetworkError" in src and 'if not header_lines: raise ProtocolError' in src \
-            and "response.parse(b''.join(header_lines))" in src
+        bnd = {}
+        lf = [i for i in walk_no_nested(rr.node) if isinstance(i, ast.If) and U.like(i.test, "not L_data.endswith(b'\\n')", bnd)
+              and i.body and isinstance(i.body[0], ast.Raise)]
+        empty = [i for i in walk_no_nested(rr.node) if isinstance(i, ast.If) and U.like(i.test, 'not L_lines', bnd)
+                 and i.body and isinstance(i.body[-1], ast.Raise)]
+        joined = [c for c in U.calls(rr.node) if U.like(c, "L_resp.parse(b''.join(L_lines))", bnd)]
+        appended = [c for c in U.calls(rr.node) if U.like(c, 'L_lines.append(L_data)', bnd)]
+        ok = bool(lf) and bool(empty) and bool(joined) and bool(appended)
         callers = [f.qual for f in repo.funcs.values() for c in U.calls(f.node)
-                   if U.attr_name(c) == 'parse' and norm_text(c.func.value) == 'response' and f.module.name.startswith('wpull.protocol.http')]
+                   if U.attr_name(c) == 'parse' and isinstance(c.func.value, ast.Name) and f.module.name.startswith('wpull.protocol.http')
+                   and any(t.qual.endswith(':Response') for t in ctx.res.type_of(f, c.func.value))]
         if ok and set(callers) <= {rr.qual}:
             return 'the header block always contains LF (read_response joins >=1 LF-terminated lines)'
     # 2. int() of a regex group that matches digits only
@@ -146,8 +152,12 @@ def _justified(ctx, esc, it):
     if it.kind == 'assert' and q == 'wpull.protocol.http.request:Request.prepare_for_send' \
             and norm_text(node.test) in ('self.url', 'self.method', 'self.version'):
         pr = repo.func('wpull.protocol.http.web:WebSession._process_redirect')
-        guard = any(isinstance(i, ast.If) and norm_text(i.test) == 'not url' and i.body and isinstance(i.body[-1], ast.Raise)
-                    for i in walk_no_nested(pr.node))
+        guard = False
+        for i in walk_no_nested(pr.node):
+            b_ = {}
+            if isinstance(i, ast.If) and U.like(i.test, 'not L_url', b_) and i.body and isinstance(i.body[-1], ast.Raise):
+                d_ = U.local_defs(pr.node).get(b_['L_url'], [])
+                guard = guard or any(v is not None and 'next_location' in norm_text(v) for v, k_, s_ in d_)
         init = repo.func('wpull.protocol.http.request:Request.__init__')
         defaults = {a.arg: d for a, d in zip(init.node.args.args[-len(init.node.args.defaults):], init.node.args.defaults)}
         ok = guard and isinstance(defaults.get('method'), ast.Constant) and defaults['method'].value \
